@@ -934,6 +934,8 @@ func run(c *core.Ctx) {
 		c.Violate("harness:connect", err.Error(), reqCase{Part: "connect"})
 	}
 
+	h.partHTTP(c)
+
 	// part 2: extendable keys used directly
 	useJobs := make(chan reqCase)
 	for i := 0; i < par; i++ {
@@ -974,6 +976,13 @@ func run(c *core.Ctx) {
 }
 
 func replay(c *core.Ctx, raw json.RawMessage) {
+	var hc httpCase
+	if json.Unmarshal(raw, &hc) == nil && hc.Part == "http" {
+		h := newHarness()
+		defer h.env.Close()
+		h.runHTTP(c, hc)
+		return
+	}
 	var rc reqCase
 	if err := json.Unmarshal(raw, &rc); err != nil {
 		c.Violate("harness:replay", "cannot parse the case: "+err.Error(), nil)
